@@ -85,6 +85,8 @@ def compare(ctx, kind, base, other, src, extra):
     what = 'str' if s1 != s2 else ('eq' if not base == other else 'hash')
     if kind in ('writer', 'rdkit') and T.ring_diene_ct(base):
         kind += '/ring-diene-writer'     # recorded writer finding: see known_findings.json
+    elif SY.symmetric_bridged_polycycle(base):
+        kind = 'symmetric-bridged-polycycle'     # recorded finding: see known_findings.json
     ctx.violation('canonical-%s-differs/%s' % (what, kind),
                   '%s: %s vs %s (%s)' % (src, s1, s2, extra), {'kind': kind, 'src': src, 'a': s1, 'b': s2, 'extra': extra})
     return False
